@@ -14,7 +14,13 @@ _m(
     "a slice of the destination vector held from an earlier step (hold steps keep up to two such slices) or taken just before an "
     "add_fields / remove_fields of that vector (stale column count), written to the held index sets shifted cyclically, or a fresh "
     "Vector.from_data with k, k+1 or k-1 columns - matching column counts must store exactly the right-hand side's cells, "
-    "mismatching ones must raise ValueError and change nothing; creation through from_data (and replacement of all cells through "
+    "mismatching ones must raise ValueError and change nothing; MUTATION OF SLICE RESULTS: a slice taken now (full or partial index "
+    "tuple, repeated positions in fancy lists welcome) or held from an earlier step joins the live vectors for 1..4 sub-steps "
+    "of replacement-type mutations (cell assignment through __setitem__ / set_data, list assignment, add_fields / remove_fields, "
+    "flatten -> set_flattened round trip, replacement of a cell in a copy() of the slice, replacement of a cell of the PARENT, "
+    "reads) and slice, parent and all other live vectors are compared with their models after every sub-step; integer positions "
+    "are drawn as Python ints and as NumPy integer scalars (int64 / int32 / intp / uint8) in every index position (cell access, "
+    "set_data / get_data, mixed with slices / lists / omitted axes); creation through from_data (and replacement of all cells through "
     "the public `v.data = list` setter on 1-D vectors, incl. wrong length / column count -> ValueError) from a list object the "
     "harness KEEPS, followed by mutations of that list (replace / insert / append / pop / clear) and by further vectors created "
     "from the SAME list object refilled in place (same content or new content) - no live vector may change and no two may share "
@@ -67,6 +73,13 @@ _m(
         "a Vector stores the arrays it is given by reference (documented aliasing): the harness never hands one ndarray object to "
         "two vectors - a kept list reused for a second from_data / .data call gets fresh array objects (nested-list elements are "
         "reused as they are) - and never mutates an array it handed over; only the caller's OUTER list is mutated",
+        "a slice result is a new Vector that owns its cell CONTAINERS and shares only the cell ARRAYS with its parent (class notes: "
+        "'Slicing operations return new Vector instances', name suffix '[view]'; this is what the unmodified tree provides): replacing "
+        "a cell or the fields of the slice changes neither the parent nor any other cell of the slice - in particular not the twin row "
+        "a repeated index produces - and replacing a cell of the parent does not change the slice.  Because the arrays are shared, "
+        "only replacement-type mutations (and value-preserving round trips) are applied while a slice is alive: in-place field "
+        "arithmetic through a slice (visible in the parent, applied twice to twin rows) is outside the domain; the model of a slice held "
+        "from an earlier step is built from what the slice returns through its public API at that moment",
         "the `data` setter is only used on vectors with one fixed dimension (its validation is written for that case)",
         "every case clears the metadata of its vectors at the end (public API) so that a tree with process-wide shared metadata "
         "cannot leak state from one case into the next: reported cases are self-contained",
